@@ -33,7 +33,7 @@ class Stub(object):
 
 
 class World(object):
-    def __init__(self, names, timeout=3.5, retry=2.0):
+    def __init__(self, names, timeout=3.5, retry=2.0, ro_names=()):
         from . import fakesock as fs
         import pysyncobj.tcp_connection as TC
         import pysyncobj.tcp_server as TS
@@ -48,6 +48,8 @@ class World(object):
         TC.monotonicTime = lambda: self.net.now
         TR.monotonicTime = lambda: self.net.now
         self.names = names
+        self.ro_names = list(ro_names)      # read-only nodes: no address of their own, they dial every member
+        self.rov = {n: set() for n in names}    # per member: ids of the read-only nodes it has been told are connected
         self.addr = {n: '127.0.0.1:%d' % (1001 + i) for i, n in enumerate(names)}
         self.name_of = {v: k for k, v in self.addr.items()}
         for n in names:
@@ -55,10 +57,12 @@ class World(object):
         self.conf = SyncObjConf(autoTick=False, connectionTimeout=timeout, connectionRetryTime=retry, raftMinTimeout=1.0, raftMaxTimeout=timeout)
         self.tr, self.stub, self.view, self.delivered_new = {}, {}, {}, []
         self.members = {n: set(x for x in names if x != n) for n in names}
-        self.up = {n: False for n in names}
+        self.up = {n: False for n in list(names) + self.ro_names}
         self.exc = False
         self.seq = 0
         for n in names:
+            self.start(n)
+        for n in self.ro_names:
             self.start(n)
 
     def start(self, n):
@@ -66,9 +70,25 @@ class World(object):
         self.cur[0] = n
         poller = self.fs.FakePoller(self.net)
         stub = Stub(poller, self.conf)
+        if n in self.ro_names:
+            tr = self.TR.TCPTransport(stub, None, [TCPNode(self.addr[m]) for m in self.names])
+            self.view[n] = set()
+            tr.setOnNodeConnectedCallback(lambda node, n=n: self.view[n].add(self.name_of.get(node.id, node.id)))
+            tr.setOnNodeDisconnectedCallback(lambda node, n=n: self.view[n].discard(self.name_of.get(node.id, node.id)))
+            tr.setOnMessageReceivedCallback(lambda node, msg: None)
+            self.tr[n], self.stub[n] = tr, stub
+            self.up[n] = True
+            try:
+                tr.tryGetReady()
+            except Exception:
+                pass
+            return
         others = [TCPNode(self.addr[m]) for m in self.names if m != n and m in self.members[n]]
         tr = self.TR.TCPTransport(stub, TCPNode(self.addr[n]), others)
         self.view[n] = set()
+        self.rov[n] = set()
+        tr.setOnReadonlyNodeConnectedCallback(lambda node, n=n: self.rov[n].add(node.id))
+        tr.setOnReadonlyNodeDisconnectedCallback(lambda node, n=n: self.rov[n].discard(node.id))
         tr.setOnNodeConnectedCallback(lambda node, n=n: self.view[n].add(self.name_of.get(node.id, node.id)))
         tr.setOnNodeDisconnectedCallback(lambda node, n=n: self.view[n].discard(self.name_of.get(node.id, node.id)))
         tr.setOnMessageReceivedCallback(lambda node, msg, n=n: self.on_msg(n, node, msg))
@@ -104,7 +124,7 @@ class World(object):
             for cb in list(self.stub[n].ticks):
                 cb()
             self.stub[n]._poller.poll(0)
-            if ping:
+            if ping and n not in self.ro_names:
                 from pysyncobj.node import TCPNode
                 for m in sorted(self.members[n]):
                     self.seq += 1
@@ -156,7 +176,16 @@ class World(object):
                 if final:
                     rec['pingok'] = bool(self.fresh.get((a, d))) and bool(self.fresh.get((d, a)))
                 pairs.append(rec)
-        e = {'a': [act], 'pairs': pairs, 'delivered': self.delivered_new, 'exc': self.exc}
+        # read-only nodes: what every member has registered / been told, against the connections that really exist
+        ro = []
+        for v in self.names:
+            if not self.up[v]:
+                continue
+            live = sum(1 for cid, (x, y) in self.net.conns.items()
+                       if x is not None and y is not None and x.owner in self.ro_names and y.owner == v and x.state == 'est' and y.state == 'est')
+            ro.append({'v': v, 'reg': len(self.tr[v]._readonlyNodes), 'told': len(self.rov[v]), 'live': live,
+                       'up': sum(1 for r in self.ro_names if self.up[r])})
+        e = {'a': [act], 'pairs': pairs, 'delivered': self.delivered_new, 'exc': self.exc, 'ro': ro}
         self.delivered_new = []
         self.exc = False
         return e
@@ -167,14 +196,16 @@ class World(object):
 def run_case(seed, nfaults=14):
     rng = random.Random(seed)
     names = ['A', 'B', 'C']
-    w = World(names)
+    ro_names = ['R1', 'R2', 'R3'][:rng.choice([0, 0, 2, 3])]
+    w = World(names, ro_names=ro_names)
+    allnames = names + ro_names
     w.got, w.fresh = {}, {}
     steps = []
     dt = 0.5
 
     def round_(act, ping=True):
         w.net.now += dt
-        for n in names:
+        for n in allnames:
             w.step_node(n, ping)
         steps.append(w.observe(act))
     for _ in range(6):
@@ -214,6 +245,8 @@ def run_case(seed, nfaults=14):
                     x.err = errno.ECONNRESET
             act = 'lateend'
         elif r < 0.65:
+            if ro_names and rng.random() < 0.6:
+                a = rng.choice(ro_names)        # read-only nodes leave and (re-)join in any order
             if w.up[a]:
                 w.kill(a)
                 act = 'kill'
@@ -247,9 +280,16 @@ def run_case(seed, nfaults=14):
     # quiet period: everything healed, everybody up and a member of everybody again
     from pysyncobj.node import TCPNode
     w.net.blackhole.clear()
+    # (keep-alive: the forgotten end of every half-open connection learns of its death by now)
+    for x in w.net.socks.values():
+        if x.state == 'est' and x.peer is not None and x.peer.state == 'closed' and not x.fin and not x.err:
+            x.err = errno.ECONNRESET
     for n in names:
         if not w.up[n]:
             w.members[n] = set(x for x in names if x != n)
+            w.start(n)
+    for n in ro_names:
+        if not w.up[n]:
             w.start(n)
     for n in names:
         for m in names:
